@@ -23,6 +23,7 @@ import sys
 import numpy as np
 from hypothesis import strategies as st
 
+FLOAT_EPS = 2.220446049250313e-16
 G_SI = 6.6743e-11        # == TidalPy.constants.G == scipy.constants.G (asserted in selftest_common)
 
 # rheology name -> (number of extra constant inputs)
@@ -113,10 +114,21 @@ def body_strategy(rheologies):
     return base.flatmap(with_inputs)
 
 
+def _away_from_zero(lo):
+    """x == 0 exactly or |x| >= lo: products like e^2 * F^2 * K must not reach the subnormal range, where the
+    repository's (and the harness's) intermediate results legitimately lose relative precision."""
+    return lambda x: x == 0.0 or abs(x) >= lo
+
+
+E_MIN, SPIN_MIN, OBL_MIN = 1.0e-6, 1.0e-6, 1.0e-3
+
+
 def _lazy_axes():
-    spin = weighted([st.sampled_from([1.0, -1.0, 1.5, 2.0, 0.5, 0.0, 3.0, -3.0]), st.floats(-3.0, 3.0)], [1, 2])
-    ecc = weighted([st.just(0.0), st.floats(0.0, 0.5), st.floats(0.0, 0.12)], [1, 5, 1])
-    obl = weighted([st.just(0.0), st.floats(0.0, math.pi / 2), st.floats(0.0, 0.3)], [1, 2, 1])
+    spin = weighted([st.sampled_from([1.0, -1.0, 1.5, 2.0, 0.5, 0.0, 3.0, -3.0]),
+                     st.floats(-3.0, 3.0).filter(_away_from_zero(SPIN_MIN))], [1, 2])
+    ecc = weighted([st.just(0.0), st.floats(1.0e-3, 0.5), st.floats(1.0e-3, 0.12),
+                    st.floats(math.log10(E_MIN), -3.0).map(lambda x: 10.0 ** x)], [2, 10, 2, 1])
+    obl = weighted([st.just(0.0), st.floats(OBL_MIN, math.pi / 2), st.floats(OBL_MIN, 0.3)], [1, 2, 1])
     return spin, ecc, obl
 
 
@@ -174,9 +186,11 @@ def case_in_domain(case):
             if not isinstance(b['sync'], bool) or not isinstance(b['use_obl'], bool):
                 return False
         for p in case['pts']:
-            if not (0.0 <= p['e'] <= 0.5 and 0.6 <= p['log_a_over_R'] <= 3.0):
+            if not (0.0 <= p['e'] <= 0.5 and 0.6 <= p['log_a_over_R'] <= 3.0 and _away_from_zero(E_MIN)(p['e'])):
                 return False
             for i in range(2):
+                if not (_away_from_zero(SPIN_MIN)(p['spin_ratio'][i]) and _away_from_zero(OBL_MIN)(p['obl'][i])):
+                    return False
                 if not (-3.0 <= p['spin_ratio'][i] <= 3.0 and 0.0 <= p['obl'][i] <= math.pi / 2 + 1e-12
                         and 10.0 <= p['log_visc'][i] <= 24.0 and 7.0 <= p['log_shear'][i] <= 11.5):
                     return False
@@ -434,7 +448,7 @@ def mode_sum(su, body, trunc=None, with_love=True):
                     continue
                 w = ncoef * n - m * spin
                 aw = np.abs(w)
-                if np.any(aw == 0.0):
+                if np.any(aw <= FLOAT_EPS):      # the rheology functions treat |w| <= eps as w = 0
                     zero_freq = True
                 sg = np.sign(w)
                 u = dist * c * np.asarray(F2, dtype=float) * np.asarray(G2, dtype=float) * np.ones(k)
@@ -478,7 +492,7 @@ def mode_sum(su, body, trunc=None, with_love=True):
     out.s_dUdO = chi / M * sO
     out.s_identity = chi * sid
     out.passive = passive
-    out.has_zero_freq = zero_freq     # some mode of the enumeration has exactly zero frequency
+    out.has_zero_freq = zero_freq     # some mode of the enumeration has (numerically) zero frequency
     out.finite = finite
     out.n_freq = [len(f) for f in freqs]
     out.love_avg = {}
